@@ -21,6 +21,11 @@ difference between model and implementation is a violation without signature, an
 until /repo 966bf8c / cf5fc54: a repair that truncates below the last complete chunk of a cut closed file, and a model fault 9
 (a chunk of another kind loaded as SUMMARY/INDEX by jls_core_repair_fsr).
 
+Model limit (reported by the reader slice): RepairRaw.rp_bk_fseek succeeds for every offset < 2^63, the real lseek fails with EINVAL
+beyond the file system's s_maxbytes (ext4: offsets >= 2^44 - 4096; tmpfs accepts them).  Crash images never contain such offsets; if a
+generator ever feeds CRC-valid chunks with absurd links / index entries, put the harness scratch directory on tmpfs (/dev/shm) as
+tools/props/RDM.py does, or the C returns JLS_ERROR_IO where the model goes on to JLS_ERROR_EMPTY.
+
 Exclusion (stated, as in WM.py): for 24-bit signals the payload and payload CRC of re-created FSR SUMMARY chunks are
 not compared (the C summarises uninitialised memory) and the file hash is not compared for such images.
 """
